@@ -1,5 +1,5 @@
 (* Props/C02.v — Crash recovery yields a committed prefix (log level). *)
-From NDB Require Import Crash.Protocol Crash.Protocol_proofs.
+From NDB Require Import Crash.Protocol Crash.Protocol_proofs Crash.NodeTable Crash.NodeTable_proofs.
 
 (* the transactions recovered from the crash image at any step, in either mode, are a prefix, in
    commit order, of the transactions whose commit record had been written; a transaction is one
@@ -18,3 +18,13 @@ Definition C02_ckpt_backed_statement : Prop :=
 Theorem C02_ckpt_backed : C02_ckpt_backed_statement.
 Proof. exact ckpt_always_backed. Qed.
 Print Assumptions C02_ckpt_backed.
+
+(* the persistent node table: at every step of every write sequence accepted by the node-table
+   monitor, after process death and after power loss, the header length never exceeds the
+   records present, so `IdMap::load` never reads a record that was not written *)
+Definition C02_node_table_statement : Prop :=
+  forall tr k, ntab_ok tr = true ->
+    load_safe_pd (nrun (firstn k tr)) = true /\ load_safe_pl (nrun (firstn k tr)) = true.
+Theorem C02_node_table : C02_node_table_statement.
+Proof. exact node_table_load_safe. Qed.
+Print Assumptions C02_node_table.
